@@ -219,6 +219,25 @@ __v4di __builtin_ia32_psrlqi256(__v4di a, int n) { __v4di r; for (int i = 0; i <
 __v2di __builtin_ia32_psllqi128(__v2di a, int n) { __v2di r; for (int i = 0; i < 2; i++) r[i] = (n < 0 || n > 63) ? 0 : (long long)((unsigned long long)a[i] << n); return r; }
 __v2di __builtin_ia32_psrlqi128(__v2di a, int n) { __v2di r; for (int i = 0; i < 2; i++) r[i] = (n < 0 || n > 63) ? 0 : (long long)((unsigned long long)a[i] >> n); return r; }
 
+int __builtin_ia32_pmovmskb256(__v32qi a) { unsigned r = 0; for (int i = 0; i < 32; i++) r |= ((unsigned)((uint8_t)a[i] >> 7)) << i; return (int)r; }
+int __builtin_ia32_pmovmskb128(__v16qi a) { unsigned r = 0; for (int i = 0; i < 16; i++) r |= ((unsigned)((uint8_t)a[i] >> 7)) << i; return (int)r; }
+__v16hi __builtin_ia32_psignw256(__v16hi a, __v16hi b) { __v16hi r; for (int i = 0; i < 16; i++) r[i] = b[i] < 0 ? (short)(0 - (int)a[i]) : b[i] == 0 ? 0 : a[i]; return r; }
+__v8hi __builtin_ia32_psignw128(__v8hi a, __v8hi b) { __v8hi r; for (int i = 0; i < 8; i++) r[i] = b[i] < 0 ? (short)(0 - (int)a[i]) : b[i] == 0 ? 0 : a[i]; return r; }
+__v4di __builtin_ia32_permti256(__v4di a, __v4di b, int imm) {
+    __v4di r;
+    for (int h = 0; h < 2; h++) { int c = (imm >> (4 * h)) & 0xf; const __v4di *s = (c & 2) ? &b : &a; int o = (c & 1) * 2;
+        r[2 * h] = (c & 8) ? 0 : (*s)[o]; r[2 * h + 1] = (c & 8) ? 0 : (*s)[o + 1]; }
+    return r;
+}
+__v16hi __builtin_ia32_pmaxsw256(__v16hi a, __v16hi b) { __v16hi r; for (int i = 0; i < 16; i++) r[i] = a[i] > b[i] ? a[i] : b[i]; return r; }
+__v8hi __builtin_ia32_pmaxsw128(__v8hi a, __v8hi b) { __v8hi r; for (int i = 0; i < 8; i++) r[i] = a[i] > b[i] ? a[i] : b[i]; return r; }
+__v16hi __builtin_ia32_pminsw256(__v16hi a, __v16hi b) { __v16hi r; for (int i = 0; i < 16; i++) r[i] = a[i] < b[i] ? a[i] : b[i]; return r; }
+__v8hi __builtin_ia32_pminsw128(__v8hi a, __v8hi b) { __v8hi r; for (int i = 0; i < 8; i++) r[i] = a[i] < b[i] ? a[i] : b[i]; return r; }
+__v8hi __builtin_ia32_psubusw128(__v8hi a, __v8hi b) { __v8hi r; for (int i = 0; i < 8; i++) { int d = (int)(uint16_t)a[i] - (int)(uint16_t)b[i]; r[i] = (short)(d < 0 ? 0 : d); } return r; }
+__v8hi __builtin_ia32_phminposuw128(__v8hi a) { __v8hi r; int bi = 0; for (int i = 1; i < 8; i++) if ((uint16_t)a[i] < (uint16_t)a[bi]) bi = i; for (int i = 0; i < 8; i++) r[i] = 0; r[0] = a[bi]; r[1] = (short)bi; return r; }
+short __builtin_ia32_vec_ext_v8hi(__v8hi a, int n) { return a[n & 7]; }
+int __builtin_ia32_vec_ext_v4si(__v4si a, int n) { return a[n & 3]; }
+
 /* Integer<->double/float vector casts: gcc treats (__m128d)<__m128i> as a bit reinterpretation, CBMC 6.11
  * converts numerically (found by the self-test: loadh_pd).  All such casts and the 64-bit half moves that go
  * through double-typed builtins are replaced by explicit byte copies. */
